@@ -1,5 +1,559 @@
 package c14
 
-import "verifharness/internal/fw"
+import (
+	"fmt"
+	"strings"
 
-func runMultiWrappers(c *fw.Ctx) {}
+	ad "github.com/pbenner/autodiff"
+	st "github.com/pbenner/autodiff/statistics"
+	md "github.com/pbenner/autodiff/statistics/matrixDistribution"
+	sd "github.com/pbenner/autodiff/statistics/scalarDistribution"
+	vd "github.com/pbenner/autodiff/statistics/vectorDistribution"
+
+	"verifharness/internal/fw"
+	"verifharness/internal/prng"
+)
+
+// Wrappers over vector and matrix distributions: vectorDistribution.Mixture /
+// VectorId / VectorIid and matrixDistribution.Mixture / VectorId / VectorIid
+// with heterogeneous components (different numbers of parameters), and scalar
+// mixtures with 1-, 2- and 3-parameter components.  LogPdf is judged offline
+// against the composition rule applied to the component values (event
+// "mvwrap"); clone and parameter round trips in-process.
+
+// vcomp is a vector-valued component with freshly drawn parameters.
+type vcomp struct {
+	kind string
+	dim  int
+	mk   func(t ad.ScalarType) (st.VectorPdf, error)
+}
+
+var vkinds = []string{"mvnormal", "mvt", "skewnormal", "scalariid", "scalarid"}
+
+func genV(r *prng.Rand, kind string, n int) vcomp {
+	switch kind {
+	case "mvnormal", "mvt", "skewnormal":
+		sp := mvGen(r, kind, n)
+		return vcomp{kind, n, sp.mkV}
+	}
+	// "scalariid[:family]" and "scalarid[:family,family,...]": the families are part
+	// of the kind, so that the same structure can be drawn again with other parameters
+	if kind == "scalariid" {
+		kind += ":" + []string{"normal", "exponential", "gev"}[r.Intn(3)]
+	}
+	if kind == "scalarid" {
+		names := make([]string, n)
+		for i := range names {
+			names[i] = []string{"normal", "exponential", "gev", "cauchy"}[r.Intn(4)]
+		}
+		kind += ":" + strings.Join(names, ",")
+	}
+	if strings.HasPrefix(kind, "scalariid:") {
+		name := strings.TrimPrefix(kind, "scalariid:")
+		p := baseGen(r, name)
+		return vcomp{kind, n, func(t ad.ScalarType) (st.VectorPdf, error) {
+			b, err := famByName(name).build(t, p)
+			if err != nil {
+				return nil, err
+			}
+			return nilIfErrV(vd.NewScalarIid(b, n))
+		}}
+	}
+	if strings.HasPrefix(kind, "scalarid:") {
+		names := strings.Split(strings.TrimPrefix(kind, "scalarid:"), ",")
+		ps := make([][]float64, n)
+		for i := range names {
+			ps[i] = baseGen(r, names[i])
+		}
+		return vcomp{kind, n, func(t ad.ScalarType) (st.VectorPdf, error) {
+			ed := make([]st.ScalarPdf, n)
+			for i := range ed {
+				b, err := famByName(names[i]).build(t, ps[i])
+				if err != nil {
+					return nil, err
+				}
+				ed[i] = b
+			}
+			return nilIfErrV(vd.NewScalarId(ed...))
+		}}
+	}
+	panic("unknown vector component " + kind)
+}
+
+// regen draws new parameters for the same kinds and dimensions.
+func regenV(r *prng.Rand, cs []vcomp) []vcomp {
+	o := make([]vcomp, len(cs))
+	for i, c := range cs {
+		o[i] = genV(r, c.kind, c.dim) // the kind string carries the structure
+	}
+	return o
+}
+
+func buildV(cs []vcomp, t ad.ScalarType) ([]st.VectorPdf, error) {
+	o := make([]st.VectorPdf, len(cs))
+	for i, c := range cs {
+		d, err := c.mk(t)
+		if err != nil {
+			return nil, err
+		}
+		o[i] = d
+	}
+	return o, nil
+}
+
+func matArg2(t ad.ScalarType, v []float64, n, m int) ad.Matrix {
+	if t == ad.Real64Type {
+		return ad.NewDenseReal64Matrix(v, n, m)
+	}
+	return ad.NewDenseFloat64Matrix(append([]float64{}, v...), n, m)
+}
+
+func evalMatLP2(d st.MatrixPdf, t ad.ScalarType, x []float64, n, m int) string {
+	r := ad.NewScalar(t, 0.0)
+	var err error
+	if p := fw.Call(func() { err = d.LogPdf(r, matArg2(t, x, n, m)) }); p != nil {
+		return "panic:" + p.Frame + ":" + short(p.Msg)
+	}
+	if err != nil {
+		return "err:" + short(err.Error())
+	}
+	return hx(r.GetFloat64())
+}
+
+func mobj(d st.MatrixPdf, t ad.ScalarType, X [][]float64, n, m int) pobj {
+	return pobj{d.GetParameters, d.SetParameters, func(i int) string { return evalMatLP2(d, t, X[i], n, m) }, len(X)}
+}
+
+func kindsOf(cs []vcomp) []string {
+	k := make([]string, len(cs))
+	for i := range cs {
+		k[i] = cs[i].kind
+	}
+	return k
+}
+
+func weightsGen(r *prng.Rand, k int) []float64 {
+	w := make([]float64, k)
+	for i := range w {
+		w[i] = pick(r, 1, 2, 0.5, r.LogUniform(0.05, 5))
+	}
+	return w
+}
+
+// cloneCheck compares the clone of an object with the object.
+func cloneCheck(cs *fw.Case, ev map[string]any, sig string, cl func() (pobj, bool), vals []string) {
+	var c pobj
+	ok := false
+	if pn := fw.Call(func() { c, ok = cl() }); pn != nil || !ok {
+		cs.Violation(sig+"|clone|roundtrip", "Clone panics or returns nil", ev)
+		return
+	}
+	for j := 0; j < c.n; j++ {
+		if v := c.lp(j); v != vals[j] {
+			cs.Violation(sig+"|clone|roundtrip", fmt.Sprintf("clone.LogPdf at argument %d = %s, original %s", j, v, vals[j]), ev)
+			break
+		}
+	}
+	cs.Cover("roundtrip:clone")
+}
+
+func runMultiWrappers(c *fw.Ctx) {
+	/* scalar mixtures with heterogeneous components (1, 2 and 3 parameters) */
+	hetero := [][]string{
+		{"exponential", "gev"}, {"gev", "gengamma"}, {"gengamma", "gev"}, {"normal", "exponential"}, {"beta", "gev"},
+		{"exponential", "normal", "gev"}, {"gev", "gengamma", "exponential"}, {"gev", "gev", "gev"},
+		{"exponential", "normal", "gev", "gengamma"}, {"gengamma", "cauchy", "exponential", "gev"},
+	}
+	c.Cases("wrap.mixture.hetero", c.N(200, 2500), func(cs *fw.Case) {
+		r := cs.R
+		var names []string
+		if cs.Index < len(hetero) {
+			names = hetero[cs.Index]
+		} else {
+			k := r.Range(2, 4)
+			for {
+				names = names[:0]
+				counts := map[int]bool{}
+				for i := 0; i < k; i++ {
+					nm := wrapBases[r.Intn(len(wrapBases))]
+					names = append(names, nm)
+					counts[len(baseGen(r, nm))] = true
+				}
+				if len(counts) > 1 || r.Intn(4) == 0 {
+					break
+				}
+			}
+		}
+		k := len(names)
+		gen := func() ([]float64, [][]float64) {
+			ps := make([][]float64, k)
+			for i := range ps {
+				ps[i] = baseGen(r, names[i])
+			}
+			return weightsGen(r, k), ps
+		}
+		w, ps := gen()
+		w2, ps2 := gen()
+		var xs []float64
+		var bases []map[string]any
+		for i := 0; i < k; i++ {
+			xs = append(xs, points(famByName(names[i]), r, ps[i], 2)...)
+			bases = append(bases, baseDesc(names[i], ps[i]))
+		}
+		mk := func(w []float64, ps [][]float64) func(t ad.ScalarType) (st.ScalarPdf, error) {
+			return func(t ad.ScalarType) (st.ScalarPdf, error) {
+				ed := make([]st.ScalarPdf, k)
+				for i := range ed {
+					b, err := famByName(names[i]).build(t, ps[i])
+					if err != nil {
+						return nil, err
+					}
+					ed[i] = b
+				}
+				return nilIfErr(sd.NewMixture(vec(t, w), ed))
+			}
+		}
+		pcl := fmt.Sprintf("K=%d,hetero", k)
+		ev := map[string]any{"k": "wrap", "kind": "mixture", "pclass": pcl, "weights": hxs(w), "bases": bases}
+		wrapEval(cs, ev, "C14|mixture|"+pcl, xs, mk(w, ps), nil, mk(w2, ps2))
+		cs.Cover(fmt.Sprintf("wrap:mixture.hetero/K=%d", k))
+		cs.Nontrivial("mixture.hetero", fmt.Sprint(names), fmt.Sprint(ps), fmt.Sprint(w), fmt.Sprint(ps2), fmt.Sprint(w2))
+		if cs.Index < 2 {
+			cs.Sample(map[string]any{"wrapper": "scalar Mixture", "components": names, "params": ps, "weights": w, "other params": ps2, "other weights": w2})
+		}
+	})
+
+	/* vector level: Mixture, VectorId, VectorIid */
+	c.Cases("mvwrap.vector", c.N(240, 3000), func(cs *fw.Case) {
+		r := cs.R
+		kind := []string{"vmixture", "vid", "viid"}[cs.Index%3]
+		n := r.Range(1, 3)
+		k := r.Range(2, 4)
+		var comps []vcomp
+		switch kind {
+		case "vmixture":
+			for i := 0; i < k; i++ {
+				comps = append(comps, genV(r, vkinds[(cs.Index/3+i)%len(vkinds)], n))
+			}
+		case "vid":
+			for i := 0; i < k; i++ {
+				comps = append(comps, genV(r, vkinds[(cs.Index/3+i)%len(vkinds)], r.Range(1, 3)))
+			}
+		case "viid":
+			comps = []vcomp{genV(r, vkinds[(cs.Index/3)%len(vkinds)], n)}
+		}
+		w := weightsGen(r, len(comps))
+		other := regenV(r, comps)
+		w2 := weightsGen(r, len(comps))
+		dim := 0
+		switch kind {
+		case "vmixture":
+			dim = n
+		case "vid":
+			for _, c := range comps {
+				dim += c.dim
+			}
+		case "viid":
+			dim = n * k
+		}
+		var X [][]float64
+		for i := 0; i < 4; i++ {
+			X = append(X, rvec(r, dim, pick(r, 0.5, 1, 2)))
+			for j := range X[i] { // gev / exponential components want arguments inside their support now and then
+				if r.Intn(3) == 0 {
+					X[i][j] = r.LogUniform(0.05, 5)
+				}
+			}
+		}
+		build := func(cs []vcomp, w []float64, t ad.ScalarType) (st.VectorPdf, []st.VectorPdf, error) {
+			ed, err := buildV(cs, t)
+			if err != nil {
+				return nil, nil, err
+			}
+			ref, _ := buildV(cs, t) // independent copies for the composition rule
+			switch kind {
+			case "vmixture":
+				d, err := vd.NewMixture(vec(t, w), ed)
+				return nilV(d, err), ref, err
+			case "vid":
+				d, err := vd.NewVectorId(ed...)
+				return nilV(d, err), ref, err
+			}
+			d, err := vd.NewVectorIid(ed[0], dim)
+			return nilV(d, err), ref, err
+		}
+		pcl := "hetero"
+		ev := map[string]any{"k": "mvwrap", "fam": kind, "pclass": pcl, "kinds": kindsOf(comps), "dim": dim, "xv": hxm(X)}
+		if kind == "vmixture" {
+			ev["weights"] = hxs(w)
+		}
+		sig := "C14|" + kind + "|" + pcl
+		for _, ty := range stypes {
+			var d st.VectorPdf
+			var ref []st.VectorPdf
+			var err error
+			if pn := fw.Call(func() { d, ref, err = build(comps, w, ty.t) }); pn != nil || err != nil || d == nil {
+				cs.Violation(sig+"|valid-rejected|constructor", fmt.Sprintf("constructor of %s over %v fails: %v %v", kind, kindsOf(comps), err, pn), ev)
+				return
+			}
+			vals := make([]string, len(X))
+			comp := make([][]string, len(X))
+			for i, x := range X {
+				vals[i] = evalVecLP(d, ty.t, x)
+				switch kind {
+				case "vmixture":
+					for _, c := range ref {
+						comp[i] = append(comp[i], evalVecLP(c, ty.t, x))
+					}
+				case "vid":
+					o := 0
+					for j, c := range ref {
+						comp[i] = append(comp[i], evalVecLP(c, ty.t, x[o:o+comps[j].dim]))
+						o += comps[j].dim
+					}
+				case "viid":
+					for o := 0; o < dim; o += n {
+						comp[i] = append(comp[i], evalVecLP(ref[0], ty.t, x[o:o+n]))
+					}
+				}
+			}
+			ev["lp"+ty.name], ev["comp"+ty.name] = vals, comp
+			if d.Dim() != dim {
+				cs.Violation(sig+"|-|roundtrip", fmt.Sprintf("Dim() = %d, expected %d", d.Dim(), dim), ev)
+			}
+			cloneCheck(cs, ev, sig, func() (pobj, bool) {
+				c := d.CloneVectorPdf()
+				return vobj(c, ty.t, X), c != nil
+			}, vals)
+			mkO := func(cs []vcomp, w []float64) func() (pobj, error) {
+				return func() (pobj, error) {
+					o, _, err := build(cs, w, ty.t)
+					if err != nil || o == nil {
+						return pobj{}, fmt.Errorf("constructor: %v", err)
+					}
+					return vobj(o, ty.t, X), nil
+				}
+			}
+			genericSetRoundTrip(cs, ev, sig, vobj(d, ty.t, X), vals, mkO(comps, w), mkO(other, w2))
+		}
+		cs.C.Cover("lp-evaluations", int64(2*len(X)))
+		cs.C.Data(ev)
+		cs.Cover("mvwrap:" + kind)
+		cs.Nontrivial(kind, fmt.Sprint(kindsOf(comps)), dim, fmt.Sprint(X), fmt.Sprint(w))
+		if cs.Index < 3 {
+			cs.Sample(map[string]any{"wrapper": kind, "components": kindsOf(comps), "dim": dim, "weights": w, "x": X})
+		}
+	})
+
+	/* matrix level: Mixture, VectorId, VectorIid */
+	c.Cases("mvwrap.matrix", c.N(240, 3000), func(cs *fw.Case) {
+		r := cs.R
+		kind := []string{"mmixture", "mid", "miid"}[cs.Index%3]
+		n := r.Range(1, 3) // the arguments are n x n matrices
+		k := r.Range(2, 3)
+		// a matrix component: inverse Wishart, or rows of vector components
+		type mcomp struct {
+			kind string
+			sub  []string // kinds of the vector components (structure)
+			mk   func(t ad.ScalarType) (st.MatrixPdf, error)
+		}
+		genM := func(kind string, sub []string) mcomp {
+			switch kind {
+			case "iwishart":
+				sp := mvGen(r, "iwishart", n)
+				return mcomp{kind, nil, sp.mkM}
+			case "miid":
+				if sub == nil {
+					sub = []string{vkinds[r.Intn(3)]}
+				}
+				vc := genV(r, sub[0], n)
+				return mcomp{"miid", []string{vc.kind}, func(t ad.ScalarType) (st.MatrixPdf, error) {
+					v, err := vc.mk(t)
+					if err != nil {
+						return nil, err
+					}
+					return nilIfErrM(md.NewVectorIid(v, n))
+				}}
+			default: // mid
+				vcs := make([]vcomp, n)
+				for i := range vcs {
+					if sub != nil {
+						vcs[i] = genV(r, sub[i], n)
+					} else {
+						vcs[i] = genV(r, vkinds[r.Intn(len(vkinds))], n)
+					}
+				}
+				return mcomp{"mid", kindsOf(vcs), func(t ad.ScalarType) (st.MatrixPdf, error) {
+					ed, err := buildV(vcs, t)
+					if err != nil {
+						return nil, err
+					}
+					return nilIfErrM(md.NewVectorId(ed...))
+				}}
+			}
+		}
+		mkinds := []string{"iwishart", "miid", "mid"}
+		var rowComps []vcomp
+		// the object under test
+		var desc []string
+		var mkObj, mkOther func(t ad.ScalarType) (st.MatrixPdf, []st.MatrixPdf, error)
+		var w []float64
+		switch kind {
+		case "mmixture":
+			gen := func(like []mcomp) ([]mcomp, []float64) {
+				var cs []mcomp
+				for i := 0; i < k; i++ {
+					if like != nil {
+						cs = append(cs, genM(like[i].kind, like[i].sub))
+					} else {
+						cs = append(cs, genM(mkinds[i%len(mkinds)], nil))
+					}
+				}
+				return cs, weightsGen(r, k)
+			}
+			mkFrom := func(cs []mcomp, w []float64) func(t ad.ScalarType) (st.MatrixPdf, []st.MatrixPdf, error) {
+				return func(t ad.ScalarType) (st.MatrixPdf, []st.MatrixPdf, error) {
+					ed := make([]st.MatrixPdf, len(cs))
+					ref := make([]st.MatrixPdf, len(cs))
+					for i := range cs {
+						var err error
+						if ed[i], err = cs[i].mk(t); err != nil {
+							return nil, nil, err
+						}
+						ref[i], _ = cs[i].mk(t)
+					}
+					d, err := md.NewMixture(vec(t, w), ed)
+					return nilM(d, err), ref, err
+				}
+			}
+			cs1, w1 := gen(nil)
+			cs2, w2 := gen(cs1) // same structure, other parameters
+			for _, c := range cs1 {
+				desc = append(desc, c.kind+fmt.Sprint(c.sub))
+			}
+			w = w1
+			mkObj, mkOther = mkFrom(cs1, w1), mkFrom(cs2, w2)
+		default:
+			// rows of vector components; the composition rule is the sum over the rows
+			rows := n
+			var vcs []vcomp
+			if kind == "mid" {
+				for i := 0; i < rows; i++ {
+					vcs = append(vcs, genV(r, vkinds[(cs.Index/3+i)%len(vkinds)], n))
+				}
+			} else {
+				vcs = []vcomp{genV(r, vkinds[(cs.Index/3)%len(vkinds)], n)}
+			}
+			oth := regenV(r, vcs)
+			desc = kindsOf(vcs)
+			mkFrom := func(vcs []vcomp) func(t ad.ScalarType) (st.MatrixPdf, []st.MatrixPdf, error) {
+				return func(t ad.ScalarType) (st.MatrixPdf, []st.MatrixPdf, error) {
+					ed, err := buildV(vcs, t)
+					if err != nil {
+						return nil, nil, err
+					}
+					if kind == "mid" {
+						d, err := md.NewVectorId(ed...)
+						return nilM(d, err), nil, err
+					}
+					d, err := md.NewVectorIid(ed[0], rows)
+					return nilM(d, err), nil, err
+				}
+			}
+			mkObj, mkOther = mkFrom(vcs), mkFrom(oth)
+			// component values for the composition rule: separate vector objects on the rows
+			rowComps = vcs
+		}
+		var X [][]float64
+		for i := 0; i < 4; i++ {
+			if kind == "mmixture" {
+				X = append(X, spd(r, n, false)) // inside the support of every component
+			} else {
+				x := rvec(r, n*n, pick(r, 0.5, 1, 2))
+				for j := range x {
+					if r.Intn(3) == 0 {
+						x[j] = r.LogUniform(0.05, 5)
+					}
+				}
+				X = append(X, x)
+			}
+		}
+		pcl := "hetero"
+		ev := map[string]any{"k": "mvwrap", "fam": kind, "pclass": pcl, "kinds": desc, "dim": n, "xm": hxm(X)}
+		if kind == "mmixture" {
+			ev["weights"] = hxs(w)
+		}
+		sig := "C14|" + kind + "|" + pcl
+		for _, ty := range stypes {
+			var d st.MatrixPdf
+			var ref []st.MatrixPdf
+			var err error
+			if pn := fw.Call(func() { d, ref, err = mkObj(ty.t) }); pn != nil || err != nil || d == nil {
+				cs.Violation(sig+"|valid-rejected|constructor", fmt.Sprintf("constructor of %s over %v fails: %v %v", kind, desc, err, pn), ev)
+				return
+			}
+			var rowRef []st.VectorPdf
+			if kind != "mmixture" {
+				rowRef, _ = buildV(rowComps, ty.t)
+			}
+			vals := make([]string, len(X))
+			comp := make([][]string, len(X))
+			for i, x := range X {
+				vals[i] = evalMatLP2(d, ty.t, x, n, n)
+				switch kind {
+				case "mmixture":
+					for _, c := range ref {
+						comp[i] = append(comp[i], evalMatLP2(c, ty.t, x, n, n))
+					}
+				case "mid":
+					for j := 0; j < n; j++ {
+						comp[i] = append(comp[i], evalVecLP(rowRef[j], ty.t, x[j*n:(j+1)*n]))
+					}
+				case "miid":
+					for j := 0; j < n; j++ {
+						comp[i] = append(comp[i], evalVecLP(rowRef[0], ty.t, x[j*n:(j+1)*n]))
+					}
+				}
+			}
+			ev["lp"+ty.name], ev["comp"+ty.name] = vals, comp
+			if a, b := d.Dims(); a != n || b != n {
+				cs.Violation(sig+"|-|roundtrip", fmt.Sprintf("Dims() = %d x %d, expected %d x %d", a, b, n, n), ev)
+			}
+			cloneCheck(cs, ev, sig, func() (pobj, bool) {
+				c := d.CloneMatrixPdf()
+				return mobj(c, ty.t, X, n, n), c != nil
+			}, vals)
+			mkO := func(mk func(t ad.ScalarType) (st.MatrixPdf, []st.MatrixPdf, error)) func() (pobj, error) {
+				return func() (pobj, error) {
+					o, _, err := mk(ty.t)
+					if err != nil || o == nil {
+						return pobj{}, fmt.Errorf("constructor: %v", err)
+					}
+					return mobj(o, ty.t, X, n, n), nil
+				}
+			}
+			genericSetRoundTrip(cs, ev, sig, mobj(d, ty.t, X, n, n), vals, mkO(mkObj), mkO(mkOther))
+		}
+		cs.C.Cover("lp-evaluations", int64(2*len(X)))
+		cs.C.Data(ev)
+		cs.Cover("mvwrap:" + kind)
+		cs.Nontrivial(kind, fmt.Sprint(desc), n, fmt.Sprint(X), fmt.Sprint(w))
+		if cs.Index < 3 {
+			cs.Sample(map[string]any{"wrapper": kind, "components": desc, "n": n, "weights": w, "X": X})
+		}
+	})
+}
+
+func nilV[T st.VectorPdf](d T, err error) st.VectorPdf {
+	if err != nil {
+		return nil
+	}
+	return d
+}
+
+func nilM[T st.MatrixPdf](d T, err error) st.MatrixPdf {
+	if err != nil {
+		return nil
+	}
+	return d
+}
